@@ -1,17 +1,30 @@
 #!/venv/bin/python
-"""Run checks against a scratch worktree that contains a seeded change (does not touch /repo).
-usage: seedcheck.py <worktree> <ID[,ID...]> [tier]"""
+"""Run checks against a seeded change WITHOUT touching /repo: creates a scratch worktree of /repo HEAD,
+applies /verif/seeded/<seed id>/patch.diff, runs the checks with VF_REPO pointing there, removes it.
+usage: seedcheck.py <seed id | existing worktree dir> <ID[,ID...]> [tier]"""
 import os, subprocess, sys
-wt, ids = sys.argv[1], sys.argv[2]
+seed, ids = sys.argv[1], sys.argv[2]
 tier = sys.argv[3] if len(sys.argv) > 3 else 'quick'
-env = dict(os.environ, VF_REPO=wt)
-procs = [(i, subprocess.Popen(['/venv/bin/python', '-m', 'vf', 'check', i, '--tier', tier], cwd='/verif', env=env, stdout=subprocess.PIPE, stderr=subprocess.PIPE, text=True)) for i in ids.split(',')]
-for i, pr in procs:
-    try:
-        out, err = pr.communicate(timeout=3600)
-    except subprocess.TimeoutExpired:
-        pr.kill(); out, err = pr.communicate()
-    keys = [l.strip() for l in out.splitlines() if l.startswith('  key=')]
-    print(f'--- {wt} / {i}: rc={pr.returncode} ' + ('DETECTED' if pr.returncode == 1 else ('not detected' if pr.returncode == 0 else 'HARNESS PROBLEM')))
-    for k in keys[:4]: print('    ' + k[:220])
-    if pr.returncode not in (0, 1): print(out[-800:], err[-300:])
+made = False
+if os.path.isdir(seed):
+    wt = seed
+else:
+    wt = f'/tmp/sc_{seed}_{os.getpid()}'
+    subprocess.run(['git', '-C', '/repo', 'worktree', 'add', '-q', '--detach', wt, 'HEAD'], check=True)
+    made = True
+    subprocess.run(['git', '-C', wt, 'apply', f'/verif/seeded/{seed}/patch.diff'], check=True)
+try:
+    env = dict(os.environ, VF_REPO=wt)
+    procs = [(i, subprocess.Popen(['/venv/bin/python', '-m', 'vf', 'check', i, '--tier', tier], cwd='/verif', env=env, stdout=subprocess.PIPE, stderr=subprocess.PIPE, text=True)) for i in ids.split(',')]
+    for i, pr in procs:
+        try:
+            out, err = pr.communicate(timeout=3600)
+        except subprocess.TimeoutExpired:
+            pr.kill(); out, err = pr.communicate()
+        keys = [l.strip() for l in out.splitlines() if l.startswith('  key=')]
+        print(f'--- {seed} / {i}: rc={pr.returncode} ' + ('DETECTED' if pr.returncode == 1 else ('not detected' if pr.returncode == 0 else 'HARNESS PROBLEM')))
+        for k in keys[:4]: print('    ' + k[:220])
+        if pr.returncode not in (0, 1): print(out[-800:], err[-300:])
+finally:
+    if made:
+        subprocess.run(['git', '-C', '/repo', 'worktree', 'remove', '--force', wt])
